@@ -210,6 +210,10 @@ def rule_hosts(run, F, cfg):
         e = pf.expr_call(t)
         m_ = re.match(r"^std::result::Result::map\((filters::network::NetworkFilter::parse_hosts_style|filters::network::NetworkFilter::parse|filters::cosmetic::CosmeticFilter::parse)\(.*, closure\[([^\]]+)\]\(", e)
         if not m_:
+            # `.map(ParsedFilter::from)` / `.map(Into::into)`: a conversion function passed by name
+            m2 = re.match(r"^std::result::Result::map\((filters::network::NetworkFilter::parse_hosts_style|filters::network::NetworkFilter::parse|filters::cosmetic::CosmeticFilter::parse)\(.*, fn:[^()]*(From<[^()]*>>::from|Into<[^()]*>>::into|convert::From::from|convert::Into::into)\)$", e)
+            if m2:
+                fw.append((m2.group(1).split("::")[-1], True, ["(conversion function)"], []))
             continue
         c = F.fns.get(m_.group(2))
         callees = [strip_generics(ct["callee"]) for cb, ct in c.calls()] if c else ["?"]
